@@ -354,6 +354,9 @@ func BuildLockWorld(p *core.Prog, fns []*ssa.Function) *LockWorld {
 			var acc lockState
 			ok := true
 			for _, cs := range callers {
+				if isConstructorLike(cs.Fn) {
+					continue // the object is not shared yet while it is being built
+				}
 				cli := w.Info[cs.Fn]
 				if cli == nil || !inSet[cs.Fn] {
 					ok = false
